@@ -3,6 +3,7 @@ package sym
 import (
 	"encoding/hex"
 	"fmt"
+	"go/types"
 	"math/big"
 	"sort"
 	"strings"
@@ -307,6 +308,14 @@ func (in *Interp) verifIntrinsic(fn *ssa.Function, args []Value) (Value, bool) {
 		return nil, true
 	case "WatchWrites":
 		in.watchRoots(args[0], in.goString(args[1]))
+		return nil, true
+	case "WatchObject":
+		iv := args[0].(Iface)
+		if iv.T != nil {
+			if pt, ok := iv.T.(*types.Pointer); ok {
+				in.watchObject(iv.V, pt.Elem(), in.goString(args[1]), 0)
+			}
+		}
 		return nil, true
 	case "WatchOn":
 		in.watchOn = in.resolveBool(args[0].(Bool)).C
